@@ -12,6 +12,8 @@ set_option linter.unusedVariables false
 namespace SoyVerif.Lemmas.LexPrint
 open SoyVerif SoyVerif.Model SoyVerif.Model.Lex SoyVerif.Model.PrintTokens
 
+variable {tg : Int}
+
 /-- the head of `t`, if any, is an ASCII byte that is not a decimal digit -/
 def NotDigHd : Bytes → Prop
   | [] => True
@@ -50,11 +52,11 @@ theorem dec_false {t : Bytes} (h : NotDigHd t) : indexRune decDigits (hdRune t) 
 /-- `acceptRun(digits)` over the digits `ds` -/
 theorem digits_run {inp : Array UInt8} (ds : Bytes) {q : Nat} {t : Bytes} (h : InpAt inp q (ds ++ t))
     (hd : ∀ b ∈ ds, isDig b = true) (ht : NotDigHd t) (st w le its) :
-    acceptRun (L inp q st w le its) decDigits = some (decide (0 < ds.length), L inp (q + ds.length) st (hdW t) le its) :=
+    acceptRun (L tg inp q st w le its) decDigits = some (decide (0 < ds.length), L tg inp (q + ds.length) st (hdW t) le its) :=
   acceptRun_run decDigits ds h (fun b hb => dec_true (hd b hb)) (notDigHd_ascii ht) (dec_false ht) st w le its
 
 theorem scanEnd (T : LexTableOK) {inp q rest} (h : InpAt inp q rest) (hr : WordEnd rest) (typ : ItemType) (st w le its) :
-    scanNumberEnd (L inp q st w le its) typ = some (typ, true, L inp q st (hdW rest) le its) := by
+    scanNumberEnd (L tg inp q st w le its) typ = some (typ, true, L tg inp q st (hdW rest) le its) := by
   unfold scanNumberEnd
   simp only [peek_hd h (wordEnd_ascii hr), Option.bind_eq_bind, Option.bind_some, alnum_false T hr]
   rfl
@@ -72,10 +74,10 @@ theorem wordEnd_ne {rest : Bytes} (h : WordEnd rest) (b : UInt8) (hb : isIdChar 
 
 /-- `scanNumberExp` when no exponent follows -/
 theorem scanExp_none (T : LexTableOK) {inp q rest} (h : InpAt inp q rest) (hr : WordEnd rest) (typ : ItemType) (st w le its) :
-    scanNumberExp (L inp q st w le its) typ = some (typ, true, L inp q st (hdW rest) le its) := by
+    scanNumberExp (L tg inp q st w le its) typ = some (typ, true, L tg inp q st (hdW rest) le its) := by
   unfold scanNumberExp
   have hne := wordEnd_ne hr 101 (by decide)
-  have ha := accept_no h (wordEnd_ascii hr) [101] (by
+  have ha := accept_no (tg := tg) h (wordEnd_ascii hr) [101] (by
     simp only [indexRune, List.contains_eq_mem, List.mem_cons, List.not_mem_nil, or_false, Bool.and_eq_false_iff,
       decide_eq_false_iff_not]
     right; exact hne) st w le its
@@ -88,10 +90,10 @@ def IsSign (s : Bytes) : Prop := s = [] ∨ s = [43] ∨ s = [45]
 /-- `scanNumberExp` on `e[+-]digits` -/
 theorem scanExp_some (T : LexTableOK) {inp q} {sgn es rest : Bytes} (h : InpAt inp q (101 :: (sgn ++ (es ++ rest))))
     (hs : IsSign sgn) (hes : es ≠ []) (hd : ∀ b ∈ es, isDig b = true) (hr : WordEnd rest) (typ : ItemType) (st w le its) :
-    scanNumberExp (L inp q st w le its) typ =
-      some (.tFloat, true, L inp (q + 1 + sgn.length + es.length) st (hdW rest) le its) := by
+    scanNumberExp (L tg inp q st w le its) typ =
+      some (.tFloat, true, L tg inp (q + 1 + sgn.length + es.length) st (hdW rest) le its) := by
   unfold scanNumberExp
-  have ha := accept_yes h (by decide) [101] (by decide) st w le its
+  have ha := accept_yes (tg := tg) h (by decide) [101] (by decide) st w le its
   have h1 : InpAt inp (q + 1) (sgn ++ (es ++ rest)) := inpAt_tail h
   have h2 : InpAt inp (q + 1 + sgn.length) (es ++ rest) := inpAt_append h1
   have h3 : InpAt inp (q + 1 + sgn.length + es.length) rest := inpAt_append h2
@@ -100,22 +102,22 @@ theorem scanExp_some (T : LexTableOK) {inp q} {sgn es rest : Bytes} (h : InpAt i
     | nil => exact absurd rfl hes
     | cons a b => exact ⟨a, b, rfl⟩
   have he0 := isDig_nat (hd e0 (by simp))
-  have hsg : ∃ w', accept (L inp (q + 1) st 1 le its) [43, 45] = some (decide (sgn ≠ []), L inp (q + 1 + sgn.length) st w' le its) := by
+  have hsg : ∃ w', accept (L tg inp (q + 1) st 1 le its) [43, 45] = some (decide (sgn ≠ []), L tg inp (q + 1 + sgn.length) st w' le its) := by
     rcases hs with rfl | rfl | rfl
     · refine ⟨1, ?_⟩
-      have := accept_no (rest := e0 :: (es' ++ rest)) (by simpa using h1) (asciiHd_cons (by show e0.toNat < 128; omega)) [43, 45] (by
+      have := accept_no (tg := tg) (rest := e0 :: (es' ++ rest)) (by simpa using h1) (asciiHd_cons (by show e0.toNat < 128; omega)) [43, 45] (by
         simp only [hdRune, indexRune, List.contains_eq_mem, List.mem_cons, List.not_mem_nil, or_false, Bool.and_eq_false_iff,
           decide_eq_false_iff_not]
         omega) st 1 le its
       simpa [hdW] using this
     · refine ⟨1, ?_⟩
-      have := accept_yes (b := 43) (s := (e0 :: es') ++ rest) (by simpa using h1) (by decide) [43, 45] (by decide) st 1 le its
+      have := accept_yes (tg := tg) (b := 43) (s := (e0 :: es') ++ rest) (by simpa using h1) (by decide) [43, 45] (by decide) st 1 le its
       simpa using this
     · refine ⟨1, ?_⟩
-      have := accept_yes (b := 45) (s := (e0 :: es') ++ rest) (by simpa using h1) (by decide) [43, 45] (by decide) st 1 le its
+      have := accept_yes (tg := tg) (b := 45) (s := (e0 :: es') ++ rest) (by simpa using h1) (by decide) [43, 45] (by decide) st 1 le its
       simpa using this
   obtain ⟨w', hsg⟩ := hsg
-  have hrun := digits_run (e0 :: es') h2 hd (wordEnd_notDig hr) st w' le its
+  have hrun := digits_run (tg := tg) (e0 :: es') h2 hd (wordEnd_notDig hr) st w' le its
   simp only [ha, Option.bind_eq_bind, Option.bind_some, if_true, hsg, hrun, scanEnd T h3 hr]
   simp
 
@@ -135,11 +137,11 @@ def NumEnd (rest : Bytes) : Prop := WordEnd rest ∧ rest.head? ≠ some 46
 
 theorem scanExp_any (T : LexTableOK) {inp q} {ex rest : Bytes} (h : InpAt inp q (ex ++ rest))
     (hx : ExpOk ex) (hr : WordEnd rest) (typ : ItemType) (st w le its) :
-    scanNumberExp (L inp q st w le its) typ =
-      some (if ex = [] then typ else .tFloat, true, L inp (q + ex.length) st (hdW rest) le its) := by
+    scanNumberExp (L tg inp q st w le its) typ =
+      some (if ex = [] then typ else .tFloat, true, L tg inp (q + ex.length) st (hdW rest) le its) := by
   rcases hx with rfl | ⟨sgn, es, rfl, hs, hes, hd⟩
   · simpa using scanExp_none T (by simpa using h) hr typ st w le its
-  · have := scanExp_some T (sgn := sgn) (es := es) (rest := rest) (by simpa using h) hs hes hd hr typ st w le its
+  · have := scanExp_some (tg := tg) T (sgn := sgn) (es := es) (rest := rest) (by simpa using h) hs hes hd hr typ st w le its
     simp only [this, List.cons_ne_nil, if_false, List.length_cons, List.length_append]
     congr 4
     omega
@@ -162,14 +164,14 @@ theorem indexOf_at {inp : Array UInt8} {q : Nat} {b : UInt8} {s : Bytes} (h : In
 /-- the hexadecimal test of `scanNumber` fails when the second byte is not `x` -/
 theorem hex_false {inp : Array UInt8} {q : Nat} {bs : Bytes} (h : InpAt inp q bs)
     (hx : ∀ a b t, bs = a :: b :: t → b ≠ 120) (st w le its) :
-    (if (L inp q st w le its).len ≥ (L inp q st w le its).pos + 2 then do
-        let s ← sliceOf (L inp q st w le its).input (L inp q st w le its).pos ((L inp q st w le its).pos + 2)
+    (if (L tg inp q st w le its).len ≥ (L tg inp q st w le its).pos + 2 then do
+        let s ← sliceOf (L tg inp q st w le its).input (L tg inp q st w le its).pos ((L tg inp q st w le its).pos + 2)
         pure (s == [48, 120])
       else pure false : Option Bool) = some false := by
   have hl := inpAt_len h
-  have hlen : (L inp q st w le its).len = (inp.size : Int) := rfl
-  have hpos : (L inp q st w le its).pos = (q : Int) := rfl
-  have hinp : (L inp q st w le its).input = inp := rfl
+  have hlen : (L tg inp q st w le its).len = (inp.size : Int) := rfl
+  have hpos : (L tg inp q st w le its).pos = (q : Int) := rfl
+  have hinp : (L tg inp q st w le its).input = inp := rfl
   split
   · rename_i hge
     rw [hlen, hpos] at hge
@@ -213,9 +215,9 @@ theorem scanNumber_shape (T : LexTableOK) {inp st} {sg ds frac ex rest : Bytes}
     (h : InpAt inp st (sg ++ (ds ++ (frac ++ (ex ++ rest)))))
     (hsg : sg = [] ∨ sg = [45]) (hds : ds ≠ []) (hd : AllDig ds) (hf : FracOk frac) (hx : ExpOk ex)
     (hz : frac = [] → NoLeadZero ds) (hr : NumEnd rest) (le its) :
-    scanNumber (L inp st st 1 le its) =
+    scanNumber (L tg inp st st 1 le its) =
       some (if frac = [] ∧ ex = [] then .tInteger else .tFloat, true,
-        L inp (st + sg.length + ds.length + frac.length + ex.length) st (hdW rest) le its) := by
+        L tg inp (st + sg.length + ds.length + frac.length + ex.length) st (hdW rest) le its) := by
   obtain ⟨d1, ds', rfl⟩ : ∃ d1 ds', ds = d1 :: ds' := by
     cases ds with
     | nil => exact absurd rfl hds
@@ -228,16 +230,16 @@ theorem scanNumber_shape (T : LexTableOK) {inp st} {sg ds frac ex rest : Bytes}
   have hq2 : InpAt inp (st + sg.length + (d1 :: ds').length) (frac ++ (ex ++ rest)) := inpAt_append hq
   have hq3 : InpAt inp (st + sg.length + (d1 :: ds').length + frac.length) (ex ++ rest) := inpAt_append hq2
   -- the sign
-  have hsign : accept (L inp st st 1 le its) [43, 45] = some (decide (sg ≠ []), L inp (st + sg.length) st 1 le its) := by
+  have hsign : accept (L tg inp st st 1 le its) [43, 45] = some (decide (sg ≠ []), L tg inp (st + sg.length) st 1 le its) := by
     rcases hsg with rfl | rfl
-    · have := accept_no (rest := d1 :: (ds' ++ (frac ++ (ex ++ rest)))) (by simpa using h) (asciiHd_cons hd18) [43, 45]
+    · have := accept_no (tg := tg) (rest := d1 :: (ds' ++ (frac ++ (ex ++ rest)))) (by simpa using h) (asciiHd_cons hd18) [43, 45]
         (sign_false hd1) st 1 le its
       simpa [hdW] using this
-    · have := accept_yes (b := 45) (s := (d1 :: ds') ++ (frac ++ (ex ++ rest))) (by simpa using h) (by decide) [43, 45]
+    · have := accept_yes (tg := tg) (b := 45) (s := (d1 :: ds') ++ (frac ++ (ex ++ rest))) (by simpa using h) (by decide) [43, 45]
         (by decide) st 1 le its
       simpa using this
   -- not hexadecimal
-  have hhex := hex_false (bs := (d1 :: ds') ++ (frac ++ (ex ++ rest))) hq (by
+  have hhex := hex_false (tg := tg) (bs := (d1 :: ds') ++ (frac ++ (ex ++ rest))) hq (by
     intro a b t e
     simp only [List.cons_append, List.cons.injEq] at e
     obtain ⟨rfl, e⟩ := e
@@ -265,7 +267,7 @@ theorem scanNumber_shape (T : LexTableOK) {inp st} {sg ds frac ex rest : Bytes}
         obtain ⟨rfl, _⟩ := e
         decide) st 1 le its
   -- the integer digits
-  have hrun := digits_run (d1 :: ds') hq hd (notDig_tail hf hx hr.1) st 1 le its
+  have hrun := digits_run (tg := tg) (d1 :: ds') hq hd (notDig_tail hf hx hr.1) st 1 le its
   simp only [List.length_cons, Nat.zero_lt_succ, decide_true] at hrun
   unfold scanNumber
   simp only [Option.bind_eq_bind, Option.pure_def] at hhex
@@ -276,20 +278,20 @@ theorem scanNumber_shape (T : LexTableOK) {inp st} {sg ds frac ex rest : Bytes}
       rcases hx with rfl | ⟨sgn, es, rfl, _, _, _⟩
       · simpa using hr.2
       · simp
-    have hdot := accept_no (rest := ex ++ rest) (by simpa using hq2) (notDigHd_ascii (by simpa using notDig_tail (Or.inl rfl) hx hr.1)) [46]
+    have hdot := accept_no (tg := tg) (rest := ex ++ rest) (by simpa using hq2) (notDigHd_ascii (by simpa using notDig_tail (Or.inl rfl) hx hr.1)) [46]
       (dot_false (notDigHd_ascii (by simpa using notDig_tail (Or.inl rfl) hx hr.1)) hnd) st (hdW ([] ++ (ex ++ rest))) le its
     simp only [hdot, Option.bind_some]
     -- the leading-zero test
     have hzero : (if (!decide (sg ≠ [])) = true then do
-          let b ← indexOf (L inp (st + sg.length + (ds'.length + 1)) st (hdW (ex ++ rest)) le its).input
-            (L inp (st + sg.length + (ds'.length + 1)) st (hdW (ex ++ rest)) le its).start
-          pure (b == 48 && decide ((L inp (st + sg.length + (ds'.length + 1)) st (hdW (ex ++ rest)) le its).pos >
-            (L inp (st + sg.length + (ds'.length + 1)) st (hdW (ex ++ rest)) le its).start + 1))
+          let b ← indexOf (L tg inp (st + sg.length + (ds'.length + 1)) st (hdW (ex ++ rest)) le its).input
+            (L tg inp (st + sg.length + (ds'.length + 1)) st (hdW (ex ++ rest)) le its).start
+          pure (b == 48 && decide ((L tg inp (st + sg.length + (ds'.length + 1)) st (hdW (ex ++ rest)) le its).pos >
+            (L tg inp (st + sg.length + (ds'.length + 1)) st (hdW (ex ++ rest)) le its).start + 1))
         else do
-          let b ← indexOf (L inp (st + sg.length + (ds'.length + 1)) st (hdW (ex ++ rest)) le its).input
-            ((L inp (st + sg.length + (ds'.length + 1)) st (hdW (ex ++ rest)) le its).start + 1)
-          pure (b == 48 && decide ((L inp (st + sg.length + (ds'.length + 1)) st (hdW (ex ++ rest)) le its).pos >
-            (L inp (st + sg.length + (ds'.length + 1)) st (hdW (ex ++ rest)) le its).start + 2)) : Option Bool) = some false := by
+          let b ← indexOf (L tg inp (st + sg.length + (ds'.length + 1)) st (hdW (ex ++ rest)) le its).input
+            ((L tg inp (st + sg.length + (ds'.length + 1)) st (hdW (ex ++ rest)) le its).start + 1)
+          pure (b == 48 && decide ((L tg inp (st + sg.length + (ds'.length + 1)) st (hdW (ex ++ rest)) le its).pos >
+            (L tg inp (st + sg.length + (ds'.length + 1)) st (hdW (ex ++ rest)) le its).start + 2)) : Option Bool) = some false := by
       have hnz := hz rfl
       rcases hsg with rfl | rfl
       · have hi := indexOf_at (b := d1) (s := ds' ++ ([] ++ (ex ++ rest))) (by simpa using h)
@@ -317,22 +319,22 @@ theorem scanNumber_shape (T : LexTableOK) {inp st} {sg ds frac ex rest : Bytes}
         · left; intro e2; apply e; simp [e2]
     simp only [Option.bind_eq_bind, Option.pure_def] at hzero
     simp only [hzero, Option.bind_some, Bool.false_eq_true, if_false]
-    have hexp := scanExp_any T (ex := ex) (rest := rest) (by simpa using hq3) hx hr.1 .tInteger st (hdW (ex ++ rest)) le its
+    have hexp := scanExp_any (tg := tg) T (ex := ex) (rest := rest) (by simpa using hq3) hx hr.1 .tInteger st (hdW (ex ++ rest)) le its
     rw [hexp]
     simp only [List.length_nil, Nat.add_zero, true_and, List.length_cons]
   · -- a fraction
     have hq2' : InpAt inp (st + sg.length + (d1 :: ds').length) (46 :: (fs ++ (ex ++ rest))) := by simpa using hq2
-    have hdot := accept_yes hq2' (by decide) [46] (by decide) st (hdW (46 :: fs ++ (ex ++ rest))) le its
+    have hdot := accept_yes (tg := tg) hq2' (by decide) [46] (by decide) st (hdW (46 :: fs ++ (ex ++ rest))) le its
     simp only [List.length_cons] at hdot
     simp only [hdot, Option.bind_some, if_true]
-    have hfrun := digits_run fs (inpAt_tail hq2') hfd (by simpa using notDig_tail (Or.inl rfl) hx hr.1) st 1 le its
+    have hfrun := digits_run (tg := tg) fs (inpAt_tail hq2') hfd (by simpa using notDig_tail (Or.inl rfl) hx hr.1) st 1 le its
     have hfpos : decide (0 < fs.length) = true := by
       cases fs with
       | nil => exact absurd rfl hfs
       | cons a b => simp
     simp only [List.length_cons, hfpos] at hfrun
     simp only [hfrun, Option.bind_some, Bool.not_true, Bool.false_eq_true, if_false]
-    have hexp := scanExp_any T (ex := ex) (rest := rest) (by
+    have hexp := scanExp_any (tg := tg) T (ex := ex) (rest := rest) (by
       have := inpAt_append (a := fs) (inpAt_tail hq2'); simpa using this) hx hr.1 .tFloat st (hdW (ex ++ rest)) le its
     try simp only [List.length_cons] at hexp
     rw [hexp]
@@ -351,17 +353,17 @@ def NumShape (val : Bytes) (typ : ItemType) : Prop :=
 theorem step_number (T : LexTableOK) {inp p} {val rest : Bytes} {typ : ItemType} (h : InpAt inp p (val ++ rest))
     (hs : NumShape val typ) (hr : NumEnd rest) (le its)
     (hprev : val.head? = some 45 → Gen.unaryMinusAfter.contains le.typ = true) :
-    Step2 inp p le its ⟨typ, val⟩ := by
+    Step2 tg inp p le its ⟨typ, val⟩ := by
   obtain ⟨sg, ds, frac, ex, rfl, hsg, hds, hd, hf, hx, hz, rfl⟩ := hs
   intro w
   have h' : InpAt inp p (sg ++ (ds ++ (frac ++ (ex ++ rest)))) := by simpa using h
-  have hscan := scanNumber_shape T h' hsg hds hd hf hx hz hr le its
+  have hscan := scanNumber_shape (tg := tg) T h' hsg hds hd hf hx hz hr le its
   have hlen : p + sg.length + ds.length + frac.length + ex.length = p + (sg ++ (ds ++ (frac ++ ex))).length := by
     simp only [List.length_append]; omega
   rw [hlen] at hscan
-  have he := emit_L h (pe := p + (sg ++ (ds ++ (frac ++ ex))).length) rfl (hdW rest) le its
+  have he := emit_L (tg := tg) h (pe := p + (sg ++ (ds ++ (frac ++ ex))).length) rfl (hdW rest) le its
     (if frac = [] ∧ ex = [] then ItemType.tInteger else ItemType.tFloat)
-  refine ⟨hdW rest, .number, L inp p p 1 le its, ?_, ?_⟩
+  refine ⟨hdW rest, .number, L tg inp p p 1 le its, ?_, ?_⟩
   · obtain ⟨d1, ds', rfl⟩ : ∃ d1 ds', ds = d1 :: ds' := by
       cases ds with
       | nil => exact absurd rfl hds
@@ -381,9 +383,9 @@ theorem step_number (T : LexTableOK) {inp p} {val rest : Bytes} {typ : ItemType}
       simp only [Option.pure_def, backup_L]
     · have h0 : InpAt inp p (45 :: (d1 :: (ds' ++ (frac ++ (ex ++ rest))))) := by simpa using h'
       have h1 := inpAt_tail h0
-      have hp : (L inp (p + 1) p 1 le its).peek = some ((d1.toNat : Int), L inp (p + 1) p 1 le its) :=
+      have hp : (L tg inp (p + 1) p 1 le its).peek = some ((d1.toNat : Int), L tg inp (p + 1) p 1 le its) :=
         peek_hd h1 (asciiHd_cons hd18) p 1 le its
-      have hl : (L inp (p + 1) p 1 le its).lastEmit = le := rfl
+      have hl : (L tg inp (p + 1) p 1 le its).lastEmit = le := rfl
       have hpv := hprev (by simp)
       simp only [step, lexInsideTag, next_L h0 (by decide), Option.bind_eq_bind, Option.bind_some]
       have h48 : (48 : Int) ≤ (d1.toNat : Int) := by omega
